@@ -31,7 +31,7 @@ CHECKS = {
          "only completeness (own signatures verify) is asserted here; soundness is C02; hash algorithms are restricted to those rPGP documents as strong enough for the key"),
  "C07": ("DESIGN.md §4 C07",
          "generated-input search over (key shape, RNG seed) with validity and round-trip oracles: bindings and back signatures verify, export/import equality, requested flags/preferences/features present, sign/verify and encrypt/decrypt usability incl. wrong-password refusal, independent de-framing and key-packet decoding of the export; illegal shapes must be refused",
-         "exploration: ~4k (thorough ~80k) keys of the cheap shapes (Ed25519Legacy/Ed25519/P-256 primaries, Curve25519Legacy/X25519/P-256 encryption subkeys, signing subkeys, locked/unlocked, 0..3 user ids, v4/v6) and 60 (1.5k) of the expensive ones (Ed448, P-384, P-521, secp256k1, RSA-2048, DSA-2048, X448); leading-zero field occurrences are measured per run",
+         "exploration: ~4k (thorough ~80k) keys of the cheap shapes (Ed25519Legacy/Ed25519/P-256 primaries, Curve25519Legacy/X25519/P-256 encryption subkeys, signing subkeys, locked/unlocked, 0..3 user ids, v4/v6) and 60 (1.5k) of the expensive ones (Ed448, P-384, P-521, secp256k1, RSA-2048, DSA-2048, X448); leading-zero field occurrences are measured per run; signing subkeys are additionally asked to authenticate independently of the primary and the binding flags are compared with the request",
          "1/256 leading-zero cases are probabilistic: ~1.3k Curve25519Legacy subkeys per quick run give ~5 expected occurrences per field; expensive algorithms get far fewer seeds"),
  "C08": ("DESIGN.md §4 C08",
          "generated-input search with a round-trip oracle (lock, serialize, parse, unlock == original packet) and a must-fail oracle for wrong passwords and single-bit tampering; locked packets come both from rPGP's API and from an independent reference (R-crypto + own key-packet encoder) covering every S2K usage octet",
@@ -75,11 +75,11 @@ CHECKS = {
          "reference framer/de-framer written from RFC 9580 4.2; the malformed-artifact-compat feature is not enabled; non-minimal length encodings are treated as legal"),
  "C18": ("DESIGN.md §4 C18",
          "generated-input search over (recipient set, presented secrets, ordering, abort flag) with a round-trip oracle for intended secrets, an error-and-zero-bytes oracle for foreign material, and spliced messages (own framer) whose ESKs wrap different session keys for the cross-check clause",
-         "exploration: ~11k (thorough ~220k) cases; 1..4 recipients over all encryption algorithms, PKESK v3/v6, addressed/anonymous, 0..3 passwords x S2K kinds; intended key unprotected / fully locked / only subkey locked / only primary locked, with or without key passwords and wrong ones first, also presented with another encryption subkey in front of the addressed one, at every position among 0..3 unrelated keys (same-algorithm decoys preferred for wildcard recipients); passwords alone / among unrelated ones (SKESK v6); negatives: non-recipient keys, wrong passwords, bit-flipped session key, session key of the wrong kind or cipher; conflicts: PKESK vs SKESK wrapping different keys with abort_early=false, RingResult marks",
+         "exploration: ~11k (thorough ~220k) cases; 1..4 recipients over all encryption algorithms, PKESK v3/v6, addressed/anonymous, 0..3 passwords x S2K kinds; intended key unprotected / fully locked / only subkey locked / only primary locked, with or without key passwords and wrong ones first, also presented with another encryption subkey in front of the addressed one; 1500 (60k) messages to RSA recipients so that short ciphertext MPIs occur; at every position among 0..3 unrelated keys (same-algorithm decoys preferred for wildcard recipients); passwords alone / among unrelated ones (SKESK v6); negatives: non-recipient keys, wrong passwords, bit-flipped session key, session key of the wrong kind or cipher; conflicts: PKESK vs SKESK wrapping different keys with abort_early=false, RingResult marks",
          "SKESK v4 wrong-password false accepts are only required to end in an error; the multi-password SEIPDv1 defect is a recorded finding"),
  "C19": ("DESIGN.md §4 C19",
          "generated-input search with a resource oracle in isolated worker processes under a counting global allocator (peak live bytes, bytes allocated in total, number and largest of requests; single requests above 1 GiB refused): (a) metamorphic declared-size inflation of generated and harvested packets, (b) doubling families with a growth-ratio oracle, (c) two-size streaming comparison of built-and-read-back messages, (d) exhaustive enumeration of Argon2 (t,p) x listed m and of every iterated-S2K count octet against the documented ceiling",
-         "exploration; sampled: 200k (thorough 4M) packets of every type with one 1/2/4/5-octet field set to 2^16..2^32-1 and the data cut, kept or replaced by up to 70000 filler bytes under accurate / five-octet / legacy four-octet / partial framings declaring up to 2^32-1, through PacketParser, key, signature and message readers; exhaustively enumerated: every (quick: every second) body offset x 4 field widths x 3 tails of ~70 small packets covering all packet types and key versions; 26 doubling families x n = 2^6..2^12 (thorough 2^16): markers, paddings, signatures, one-pass headers, user ids, subkeys, subpackets, user attributes, armor lines/headers/garbage, cleartext lines, nested compression, partial chunks; 14 message configurations at 1 MiB vs 16 MiB (thorough 4 vs 256 MiB); SEIPDv1 CheckFirst limits x 5 size ratios; Argon2 all 65536 (t,p) x 21 (thorough 256) m octets; iterated S2K 256 counts x password lengths 0..1 MiB",
+         "exploration; sampled: 200k (thorough 4M) packets of every type with one 1/2/4/5-octet field set to 2^16..2^32-1 and the data cut, kept or replaced by up to 70000 filler bytes under accurate / five-octet / legacy four-octet / partial framings declaring up to 2^32-1, through PacketParser, key, signature and message readers; exhaustively enumerated: every (quick: every second) body offset x 4 field widths x 3 tails of ~70 small packets covering all packet types and key versions; 26 doubling families x n = 2^6..2^12 (thorough 2^16): markers, paddings, signatures, one-pass headers, user ids, subkeys, subpackets, user attributes, armor lines/headers/garbage, cleartext lines, nested compression, partial chunks; 14 message configurations at 1 MiB vs 16 MiB (thorough 4 vs 256 MiB); SEIPDv1 CheckFirst limits x 5 size ratios x 6 orders of the decryption-option setters; Argon2 all 65536 (t,p) x 21 (thorough 256) m octets; iterated S2K 256 counts x password lengths 0..1 MiB",
          "time is not measured (no wall-clock oracle): linear work is decided on allocation volume and allocation count only, so a non-allocating quadratic scan would escape; constants (192 KiB + 8 x supplied; 6 MiB where a decompressor runs) are upper bounds chosen above everything observed on the unchanged tree, so inflation below ~200 KiB is not distinguished"),
 }
 FUZZ_IDS = {"C04", "C05", "C10", "C14", "C16", "C17"}
